@@ -582,7 +582,7 @@ func (l *Line) IPArray(name string, value []net.IP) *Line {
 	}
 
 	for _, v := range value {
-		if l.index+28+2 > cap(l.buffer) { // assume longest IP len 4*8+4
+		if l.index+40+2 > cap(l.buffer) { // longest IP6 text is 8*4+7 plus the separator written before it is trimmed
 			break
 		}
 		if v != nil {
@@ -594,9 +594,9 @@ func (l *Line) IPArray(name string, value []net.IP) *Line {
 				l.index = l.index + copy(l.buffer[l.index:], byteAscii[ip[2]])
 				l.appendByte('.')
 				l.index = l.index + copy(l.buffer[l.index:], byteAscii[ip[3]])
-				return l
+			} else {
+				l.appendIP6(v)
 			}
-			l.appendIP6(v)
 		}
 		l.appendByte(',')
 		l.appendByte(' ')
